@@ -187,7 +187,7 @@ def r_chunk_kinds(ctx):
     buf = None
     for n in cfg.nodes:
         if n.kind == 'stmt' and isinstance(n.ast, (ast.Assign, ast.AugAssign)) and res.reached(n.id):
-            v = n.ast.value
+            v = U.deref1(P, h, n.ast.value)        # message['data'] itself or a local holding it
             if isinstance(v, ast.Subscript) and isinstance(v.value, ast.Name) and v.value.id == msg and isinstance(v.slice, ast.Constant) and v.slice.value == 'data':
                 t = n.ast.targets[0] if isinstance(n.ast, ast.Assign) else n.ast.target
                 buf = P.self_attr(t, h.self_name) or buf
